@@ -966,6 +966,33 @@ M('C20', 'delete waits for pending tasks before forgetting (equivalent disciplin
   "    def delete(self, key):\n        if key in self._waiting_for_load:\n            self.worker.join_tasks()\n            self._waiting_for_load.discard(key)\n            self._loaded.pop(key, None)\n        self.worker.put_task(self.disk_storage.delete, key)",
   None, expect='silent')
 
+M('C07', '_scale_axis_B inverts S for every negative form difference (round-3 seed b)', MPS,
+  "            if form_diff == -1.0:\n                S = 1.0 / S", "            if form_diff < 0.0:\n                S = 1.0 / S",
+  'FORM-scale-exponent')
+M('C07', '_scale_axis_B: general power first (equivalent)', MPS,
+  """            if form_diff == -1.0:
+                S = 1.0 / S
+            elif form_diff != 1.0:
+                S = S**form_diff
+""", """            if form_diff != 1.0:
+                S = S**form_diff
+""", None, expect='silent')
+M('C07', 'gauge fix reads both tensors before writing the first (round-3 seed a)', MPS,
+  """        self.set_B(i0, npc.tensordot(self.get_B(i0), Yl, axes=['vR', 'vL']))
+        self.set_B(i1, npc.tensordot(Yr, self.get_B(i1), axes=['vR', 'vL']))
+""", """        B0, B1 = self.get_B(i0), self.get_B(i1)
+        self.set_B(i0, npc.tensordot(B0, Yl, axes=['vR', 'vL']))
+        self.set_B(i1, npc.tensordot(Yr, B1, axes=['vR', 'vL']))
+""", 'SITE-rmw-order')
+M('C07', 'gauge fix reads each tensor right before its write (equivalent)', MPS,
+  """        self.set_B(i0, npc.tensordot(self.get_B(i0), Yl, axes=['vR', 'vL']))
+        self.set_B(i1, npc.tensordot(Yr, self.get_B(i1), axes=['vR', 'vL']))
+""", """        B0 = self.get_B(i0)
+        self.set_B(i0, npc.tensordot(B0, Yl, axes=['vR', 'vL']))
+        B1 = self.get_B(i1)
+        self.set_B(i1, npc.tensordot(Yr, B1, axes=['vR', 'vL']))
+""", None, expect='silent')
+
 # ---------------------------------------------------------------- C16 / C19
 M('C16', 'GMRES restart: relative residual norm used for normalisation (round-3 seed b)', KRY,
   """        self.total_error.append([npc.norm(self.rs[-1]) / self.b_norm])
